@@ -16,6 +16,8 @@ CLAIMED = {
             "trusted: as C03; termination of the DFS argued on paper; deep recursion (RecursionError on ~1000-deep chains) is NOT decided by these contracts", "4 C04"),
     "C05": ("proof", "one schedule() serves status, dry run and run: the three real callbacks refine one interface, so the table and the submission log are the same function of the initial state; with a non-submitting callback (status, dry run) the scheduler ghost, the tracked ids and every spec-hash answer are proved unchanged, `gwf run --dry-run` removes no log; filter composition is proved pointwise. Output formatting (print_table/print_summary) and the status command body are not under contract yet.",
             "trusted: click, StatusFilter (8 lines, modelled), endpoint-cover meta-lemma (every target lies in the cone of some endpoint), z3, pyvc encoding", "4 C05"),
+    "C06": ("other", "mixed: the first sentence (after a successful drain every cone target with outputs is completed and the second run submits none of them) is a lemma over the verified contracts of schedule / from_targets / submit_backend plus the environment assumptions E1-E5 (job outputs exist with mtime inside the job's run, prerequisites delay the start, nothing else touches files, finished jobs report completed/unknown, clocks monotone): a chain of 7 obligations, the induction over the acyclic rank is lean/Meta.lean. The second sentence (exact re-submission set after one change) is decided by the bounded stand-in cli-rerun-after-one-change (real CLI, fake Slurm that honours afterok).",
+            "NOT verified: E1-E5 (they are the property's own premise about the backend); the manual correspondence between the lemma's hypotheses and the contracts' ensures text; bounded: 5 workflows x (modify the source | delete each output)", "4 C06"),
     "C07": ("other", "mixed: TrackingBackend.submit is proved to pass exactly the ids tracked for the given dependencies to ops.submit_target and to track the returned id; SlurmOps/SGEOps/LSFOps.submit_target are proved to call sbatch/qsub/bsub with exactly the afterok / hold_jid / done()&& lists and to return the printed id stripped. The local client and the end-to-end id round trip are checked only by the bounded stand-in ops-command-lines (scripted fake scheduler commands). 'never starts before its prerequisites finished' is a consequence under the schedulers' documented dependency semantics (assumed).",
             "assumed: afterok / hold_jid / done() semantics, subprocess delivers argv unchanged, utils.call's own body; bounded: ops-command-lines (ids 11/12/13, three backends); z3; pyvc encoding", "4 C07"),
     "C08": ("other", "mixed: TrackingBackend.status == state of the id tracked for the target's name (UNKNOWN when absent), ids loaded from the file written by the previous close, submit overwrites the entry; Slurm merge proved (squeue wins over sacct; no sacct call when accounting is off). The per-scheduler classification tables, line parsing, the 1024-id batching and SGE/LSF/local queries are checked only by the bounded stand-in ops-state-tables (documented state codes through fake squeue/sacct/qstat/bjobs). Local-pool id reuse after a restart is NOT covered (documented assumption).",
@@ -46,7 +48,6 @@ CLAIMED = {
             "trusted: int() on non-canonical spellings left open (as the statement does), ChainMap semantics as modelled, json round trip, z3 string solver for the quantifier-free cuts", "4 C20"),
 }
 NOT_YET = {
-    "C06": "convergence is a lemma over the contracts of C01/C02/C07 under environment assumptions E1-E5; the lemma obligations are not generated yet in this round",
 }
 
 
